@@ -20,6 +20,7 @@ type c11Case struct {
 	Verb  string    `json:"verb"`  // spelling of the verb ("MAIL", "mail", "Rcpt", ...)
 	Arg   Octets    `json:"arg"`   // everything after the verb and one space
 	Flags ref.Flags `json:"flags"` // extension flags of the server
+	TLS   bool      `json:"tls,omitempty"` // the connection is under (implicit) TLS: no bearing on what is well-formed or enabled
 }
 
 func c11Run(c c11Case) Verdict {
@@ -29,8 +30,15 @@ func c11Run(c c11Case) Verdict {
 	}
 	res := ref.Classify(c.Mail, arg, c.Flags)
 	cfg := harness.Config{UTF8: c.Flags.UTF8, RequireTLS: c.Flags.RequireTLS, BinaryMIME: c.Flags.BinaryMIME, DSN: c.Flags.DSN, RRVS: c.Flags.RRVS}
+	if c.TLS {
+		cfg.TLS = "implicit"
+	}
 	r := harness.NewRig(cfg, harness.Script{})
-	w, _ := r.Dial()
+	w, derr := r.Dial()
+	if derr != nil {
+		w.Finish()
+		return Verdict{Inconclusive: "dial: " + derr.Error()}
+	}
 	if st := w.WaitQuiet(); st != harness.QIdle {
 		w.Finish()
 		return Verdict{Inconclusive: "server not idle after connect: " + st}
@@ -59,6 +67,9 @@ func c11Run(c c11Case) Verdict {
 		v.Classes = append(v.Classes, "unspecified")
 	}
 	v.NonTrivial = strings.Contains(arg, "=") || strings.Count(arg, " ") >= 1 || res.Class == ref.Invalid
+	if c.TLS {
+		v.Classes = append(v.Classes, "under_tls")
+	}
 	if p := r.Log.Panicked(); p != "" {
 		return failf("panic", "line %q: server logged a panic: %s", c.Verb+" "+arg, p)
 	}
@@ -347,6 +358,7 @@ func c11Gen(t *rapid.T) c11Case {
 	}
 	line = strings.ReplaceAll(line, "\n", "?")
 	c.Arg = Octets(line)
+	c.TLS = rapid.IntRange(0, 3).Draw(t, "tls") == 0
 	return c
 }
 
@@ -427,6 +439,7 @@ func FuzzC11(f *testing.F) {
 		}
 		c := c11Case{Flags: ref.Flags{UTF8: flags&1 != 0, RequireTLS: flags&2 != 0, BinaryMIME: flags&4 != 0, DSN: flags&8 != 0, RRVS: flags&16 != 0}}
 		c.Mail = flags&32 == 0
+		c.TLS = flags&192 == 192 // one input in four runs under TLS
 		c.Verb = map[bool]string{true: "MAIL", false: "RCPT"}[c.Mail]
 		c.Arg = line
 		if v := c11Run(c); v.Fail != "" {
